@@ -27,7 +27,7 @@ PORT = 60000
 
 
 class Rig:
-    def __init__(self, with_search: bool = False, share_tree: dict | None = None):
+    def __init__(self, with_search: bool = False, share_tree: dict | None = None, noisy: bool = False):
         from aioslsk.events import EventBus
         from aioslsk.network.network import Network, PeerConnectMode
         from aioslsk.network.connection import ConnectionState
@@ -63,6 +63,8 @@ class Rig:
             if with_search:
                 self._init_search(share_tree or {})
             self.run(self.network.listening_connections[0].connect())
+            if noisy:
+                self._add_noisy_listeners()      # registered late: after the managers and after start-up
             self.eps: dict[int, fakes.Endpoint] = {}       # conn id -> endpoint (distributed peers)
             self.conn_of: dict[int, object] = {}           # conn id -> PeerConnection
             self.names: dict[int, str] = {}
@@ -75,6 +77,36 @@ class Rig:
         except Exception:
             self.close()
             raise
+
+    def _add_noisy_listeners(self):
+        """Foreign listeners on the same bus, registered after the managers: one that raises, suspending ones that run
+        before and after the managers' listeners.  The EventBus must isolate them (exceptions swallowed, order by priority)."""
+        from aioslsk import events as E
+
+        def raising(event):
+            raise RuntimeError('foreign listener failed')
+
+        async def slow_first(event):
+            await asyncio.sleep(0)
+            await asyncio.sleep(0)
+
+        async def slow_last(event):
+            await asyncio.sleep(0)
+            raise ValueError('foreign coroutine listener failed')
+        self._noisy = [raising, slow_first, slow_last]      # the bus holds listeners weakly
+        for cls in (E.MessageReceivedEvent, E.ConnectionStateChangedEvent, E.PeerInitializedEvent,
+                    E.SessionInitializedEvent, E.SessionDestroyedEvent):
+            self.bus.register(cls, raising, priority=50)
+            self.bus.register(cls, slow_first, priority=10)
+            self.bus.register(cls, slow_last, priority=150)
+
+    def replace_settings_objects(self):
+        """the debug / users settings objects are replaced as a whole (same values): managers must read through Settings"""
+        from aioslsk.settings import DebugSettings, UsersSettings
+        old = self.settings.users
+        self.settings.debug = DebugSettings(search_for_parent=self.settings.debug.search_for_parent)
+        self.settings.users = UsersSettings(friends=set(old.friends), blocked=dict(old.blocked))
+        self.settle()
 
     # ------------------------------------------------------------------ plumbing
     def run(self, coro):
